@@ -34,7 +34,11 @@ BAD_DECLS = [
 
 
 def mk_pkg(rnd, name, kind, k0):
-    """kind: good | bad | mixed.  Returns ({file: content}, {file: content without bad decls}, has_err)."""
+    """kind: good | bad | mixed | broken.  Returns ({file: content}, {file: content without bad decls}, has_err)."""
+    if kind == "broken":
+        # does not type-check: goose has no translation for it at all
+        src = "package %s\n\nfunc Broken%d() uint64 {\n\treturn \"not a number\"\n}\n" % (name, k0)
+        return {"f0.go": src}, {"f0.go": "package %s\n" % name}, True
     nfiles = rnd.randrange(1, 3)
     files, reduced = {}, {}
     k = k0
@@ -66,11 +70,11 @@ def scenarios(seed, tier):
         dirs = rnd.sample(["a", "b", "sub/c", "d-e", "v.1/f", "z"], rnd.randrange(1, 5))
         pkgs, reduced, kinds, errs = {}, {}, {}, {}
         for i, d in enumerate(dirs):
-            kind = rnd.choice(["good", "good", "bad", "mixed"])
+            kind = rnd.choice(["good", "good", "bad", "mixed", "good", "good", "bad", "mixed", "broken"])
             name = d.split("/")[-1].replace("-", "_").replace(".", "_")
             files, red, he = mk_pkg(rnd, name, kind, 100 * i)
             # build-tag guarded files: only the `goose` one belongs to the package goose sees
-            if rnd.random() < 0.4:
+            if kind != "broken" and rnd.random() < 0.4:
                 files["tag_goose.go"] = "//go:build goose\n\npackage %s\n\nfunc OnlyGoose%d() uint64 {\n\treturn 1\n}\n" % (name, i)
                 red["tag_goose.go"] = files["tag_goose.go"]
                 files["tag_nogoose.go"] = "//go:build !goose\n\npackage %s\n\nfunc NotGoose%d() uint64 {\n\treturn 2\n}\n" % (name, i)
@@ -177,11 +181,11 @@ def check(ctx):
                 raise C.Infra("generator and go list disagree on matched packages: %s vs %s" % (sorted(listed), sorted(want_pkgs)))
             # ---- the model
             order = sorted(sc["matched"], key=lambda d: "example.com/m/" + d)
-            line = "cmd %d 0 %s" % (1 if sc["ignore"] else 0, " ".join("%s %d %s" % ("example.com/m/" + d, 1 if sc["errs"][d] else 0, sc["prior"][d]) for d in order))
+            line = "cmd %d 0 %s" % (1 if sc["ignore"] else 0, " ".join("%s %d %s" % ("example.com/m/" + d, 2 if sc["kinds"][d] == "broken" else 1 if sc["errs"][d] else 0, sc["prior"][d]) for d in order))
             model = C.driver("cli", [line])[0] if build.driver_ok else None
             # ---- the property, clause by clause
             any_err = any(sc["errs"][d] for d in sc["matched"])
-            unwritable = [d for d in sc["matched"] if sc["prior"][d] == "u" and (not sc["errs"][d] or sc["ignore"])]
+            unwritable = [d for d in sc["matched"] if sc["prior"][d] == "u" and (not sc["errs"][d] or sc["ignore"]) and sc["kinds"][d] != "broken"]
             crashed = "goroutine " in err and "panic" in err
             if crashed:
                 viol(sc, "crashed", "no stack trace", err[:600])
@@ -192,7 +196,7 @@ def check(ctx):
                          {"exit": rc, "stderr": err[-500:]})
                 for d in sc["matched"]:
                     op = outpath(d)
-                    should_exist_new = (not sc["errs"][d]) or sc["ignore"]
+                    should_exist_new = (not sc["errs"][d]) or (sc["ignore"] and sc["kinds"][d] != "broken")
                     pr = sc["prior"][d]
                     if should_exist_new:
                         if op not in after:
